@@ -1,6 +1,7 @@
 package verifsim
 
 import (
+	"context"
 	"encoding/base64"
 	"crypto/sha256"
 	"encoding/json"
@@ -908,7 +909,8 @@ func (r *JobRun) tickOp(op *Op, i int) *Violation {
 	if spec == nil {
 		spec = map[string]any{}
 	}
-	trig := cfg["triggers"].([]any)[0].(map[string]any)
+	ti := intOf(spec, "trigger") // which of the job's triggers fires (0 = its cron trigger)
+	trig := cfg["triggers"].([]any)[ti].(map[string]any)
 	jobType := fmt.Sprint(trig["jobType"])
 	maxItems, maxRetries, retryDelay, hasLog, hasRerun := 0, 0, int64(0), false, false
 	if l, ok := trig["onError"].([]any); ok {
@@ -963,14 +965,21 @@ func (r *JobRun) tickOp(op *Op, i int) *Violation {
 	// advance to just after the next trigger time: the "@every 10m" trigger fires once. The instant is read
 	// from the hub's schedule: a fixed 10 minutes would drift against the cron by the time spent waiting for
 	// re-runs and let a later tick see two trigger runs
-	fire := time.Now().Add(10 * time.Minute)
-	for _, e := range r.H.Full.Sched.GetScheduleEntries().Entries {
-		// (this profile schedules one job; the listing's job ids are unreliable: it maps entries by slice index)
-		if e.Next.After(time.Now()) && e.Next.Before(fire.Add(time.Second)) {
-			fire = e.Next
+	if boolOf(spec, "event") {
+		// the job's onchange trigger: the event the HTTP handler emits after a stored batch
+		time.Sleep(time.Second)
+		r.H.Full.Bus.Emit(context.Background(), "dataset."+fmt.Sprint(trig["monitoredDataset"]), nil)
+		r.Stats["event_trigger_runs"]++
+	} else {
+		fire := time.Now().Add(10 * time.Minute)
+		for _, e := range r.H.Full.Sched.GetScheduleEntries().Entries {
+			// (this profile schedules one job; the listing's job ids are unreliable: it maps entries by slice index)
+			if e.Next.After(time.Now()) && e.Next.Before(fire.Add(time.Second)) {
+				fire = e.Next
+			}
 		}
+		time.Sleep(time.Until(fire) + time.Second)
 	}
-	time.Sleep(time.Until(fire) + time.Second)
 	if !r.H.WaitJobsIdle(2 * time.Hour) {
 		return viol("C17", "job-run", "job-hangs", "job still running after 2h of simulated time")
 	}
